@@ -116,20 +116,6 @@ Proof.
   - destruct H; auto. apply IH in H. tauto.
 Qed.
 
-Lemma find_psend_nth : forall l k i it p,
-  find_psend l k = Some (i, it, p) ->
-  exists j, i = k + j /\ nth_error l j = Some (it, WPSend p).
-Proof.
-  induction l as [|[it0 pc] t IH]; intros k i it p H; simpl in H; try discriminate.
-  destruct pc;
-    try (apply IH in H; destruct H as [j [-> Hj]]; exists (S j); split; [lia | exact Hj]).
-  inversion H; subst. exists 0. split; [lia | reflexivity].
-Qed.
-
-Lemma find_psend_nth0 : forall l i it p,
-  find_psend l 0 = Some (i, it, p) -> nth_error l i = Some (it, WPSend p).
-Proof. intros l i it p H. apply find_psend_nth in H. destruct H as [j [-> H]]. exact H. Qed.
-
 Lemma forallb_nth : forall {A} (f : A -> bool) l i w,
   forallb f l = true -> nth_error l i = Some w -> f w = true.
 Proof.
@@ -181,7 +167,6 @@ Lemma invA_step : forall cf s l s', invA s -> step cf s l = Some s' -> invA s'.
 Proof.
   intros cf s l s' I H. unfold invA, ncancel in *. destruct I as (I1 & I2 & I3 & I4 & I5).
   open_step s l H.
-  all: try (apply find_psend_nth0 in E).
   all: try use_upd w_incancel.
   all: try rewrite filter_len_app; cbn [c_incancel w_incancel snd filter length] in *.
   all: try match goal with
@@ -246,7 +231,7 @@ Qed.
 (* S. structural invariants                                            *)
 (* ------------------------------------------------------------------ *)
 Definition r_late (p : rpc) : bool :=
-  match p with RFinish | RDone | RPanicCas _ | RPSend _ => true | _ => false end.
+  match p with RFinish | RDone | RPanicCas _ => true | _ => false end.
 Definition x_late (p : xpc) : bool :=
   match p with XWait | XDrain | XDone => true | _ => false end.
 
@@ -285,7 +270,6 @@ Proof.
   intros cf s l s' I H. unfold invS in *.
   destruct I as (I1 & I2 & I3 & I4 & I5 & I6 & I7 & I8).
   open_step s l H.
-  all: try (apply find_psend_nth0 in E).
   all: cbn [r_late x_late c_cancel] in *.
   all: splits; try assumption.
   all: try match goal with |- context[r_next ?l ?a] => destruct (r_late_next l a) end.
@@ -303,11 +287,11 @@ Qed.
 
 (* B3: J1, J4 *)
 Theorem J1 : forall cf s, reachable cf s ->
-  (r s = RFinish \/ r s = RDone \/ (exists p, r s = RPanicCas p) \/ (exists p, r s = RPSend p)) ->
+  (r s = RFinish \/ r s = RDone \/ (exists p, r s = RPanicCas p)) ->
   collc s = true.
 Proof.
   intros cf s R H. destruct (invS_reach cf s R) as (_ & I2 & _). apply I2.
-  destruct H as [H|[H|[[p H]|[p H]]]]; rewrite H; reflexivity.
+  destruct H as [H|[H|[p H]]]; rewrite H; reflexivity.
 Qed.
 
 Theorem J4 : forall cf s, reachable cf s -> (srcc s = true <-> g s = GDone).
@@ -318,9 +302,7 @@ Proof. intros cf s R. apply (invS_reach cf s R). Qed.
 (* ------------------------------------------------------------------ *)
 Definition invP (s : state) : Prop :=
   (wrote s = false -> fpanic s = None) /\
-  (forall p, g s = GPanicSend p -> fpanic s = Some (PUser p)) /\
-  (forall p, r s = RPSend p -> fpanic s = Some p) /\
-  (forall it p, In (it, WPSend p) (ws s) -> fpanic s = Some p) /\
+  (wrote s = true -> exists p, fpanic s = Some p) /\
   (forall p, c s = CDrainOut p -> fpanic s = Some p).
 
 Ltac in_tac :=
@@ -343,8 +325,6 @@ Ltac use_fa :=
 Ltac inj_all :=
   repeat match goal with
   | H : CDrainOut _ = CDrainOut _ |- _ => inversion H; subst; clear H
-  | H : RPSend _ = RPSend _ |- _ => inversion H; subst; clear H
-  | H : GPanicSend _ = GPanicSend _ |- _ => inversion H; subst; clear H
   | H : CDefer _ = CDefer _ |- _ => inversion H; subst; clear H
   | H : CDone _ = CDone _ |- _ => inversion H; subst; clear H
   | H : Some _ = Some _ |- _ => inversion H; subst; clear H
@@ -359,9 +339,8 @@ Qed.
 Lemma invP_step : forall cf s l s', invP s -> step cf s l = Some s' -> invP s'.
 Proof.
   intros cf s l s' I H. unfold invP in *.
-  destruct I as (I1 & I2 & I3 & I4 & I5).
+  destruct I as (I1 & I2 & I5).
   open_step s l H.
-  all: try (apply find_psend_nth0 in E; apply nth_error_In in E).
   all: splits; try assumption.
   all: try match goal with
        | I1 : false = false -> ?f = None |- _ =>
@@ -409,7 +388,8 @@ Qed.
 (* ------------------------------------------------------------------ *)
 Definition remaining (p : rpc) : list ract :=
   match p with RRecv _ a => a | RRun a => a | RSend k a => RWrite k :: a | _ => [] end.
-Definition c_defer (p : cpc) : bool := match p with CDefer _ => true | _ => false end.
+(* the caller has taken its value (or the close) from `output` *)
+Definition c_defer (p : cpc) : bool := match p with CDefer _ | COut _ => true | _ => false end.
 
 Lemma writes_app : forall a b, writes (a ++ b) = writes a ++ writes b.
 Proof. induction a as [|[k|p] t IH]; simpl; intros; rewrite ?IH; reflexivity. Qed.
@@ -460,6 +440,34 @@ Definition sound (cf : cfg) (s : state) (o : outcome) : Prop :=
   | OPanicTwice => 2 <= List.length (writes (rafter cf))
   end.
 
+(* what the caller holds between the output arm and retErr.Load *)
+Definition invO3 (cf : cfg) (s : state) : Prop :=
+  match c s with
+  | COut (Some k) => In (RWrite k) (rafter cf)
+  | COut None => fin s = true
+  | _ => True
+  end.
+
+Lemma invO3_init : forall cf, invO3 cf (init cf).
+Proof. intros cf. exact I. Qed.
+
+Lemma invO3_step : forall cf s l s', invO1 cf s -> invO3 cf s -> step cf s l = Some s' -> invO3 cf s'.
+Proof.
+  intros cf s l s' IO I H. unfold invO3, invO1 in *.
+  destruct IO as (pre & post & Hr & _).
+  open_step s l H.
+  all: try assumption; try exact Logic.I; try reflexivity.
+  all: cbn [remaining] in *.
+  all: try solve [repeat match goal with |- context[match ?x with _ => _ end] => destruct x end; auto].
+  rewrite Hr. simpl. apply in_elt.
+Qed.
+
+Lemma invO3_reach : forall cf s, reachable cf s -> invO3 cf s.
+Proof.
+  intros cf. apply reach_ind; [apply invO3_init |].
+  intros; eapply invO3_step; eauto using invO1_reach.
+Qed.
+
 Definition invO2 (cf : cfg) (s : state) : Prop :=
   forall o, caller_outcome s = Some o -> sound cf s o.
 
@@ -467,12 +475,13 @@ Lemma invO2_init : forall cf, invO2 cf (init cf).
 Proof. intros cf o H. discriminate H. Qed.
 
 Lemma invO2_step : forall cf s l s',
-  invA s -> invS s -> invP s -> invO1 cf s -> invO2 cf s -> step cf s l = Some s' -> invO2 cf s'.
+  invA s -> invS s -> invP s -> invO1 cf s -> invO3 cf s -> invO2 cf s ->
+  step cf s l = Some s' -> invO2 cf s'.
 Proof.
-  intros cf s l s' IA IS IP IO I H. unfold invO2, invO1, caller_outcome in *.
+  intros cf s l s' IA IS IP IO IO3 I H. unfold invO2, invO1, invO3, caller_outcome in *.
   destruct IA as (_ & _ & IA3 & _ & _).
   destruct IS as (_ & _ & _ & _ & _ & _ & IS7 & _).
-  destruct IP as (IP1 & _ & _ & _ & IP5).
+  destruct IP as (IP1 & _ & IP5).
   destruct IO as (pre & post & Hr & Hd).
   open_step s l H.
   all: try assumption.
@@ -493,7 +502,7 @@ Qed.
 Lemma invO2_reach : forall cf s, reachable cf s -> invO2 cf s.
 Proof.
   intros cf. apply reach_ind; [apply invO2_init |].
-  intros; eapply invO2_step; eauto using invA_reach, invS_reach, invP_reach, invO1_reach.
+  intros; eapply invO2_step; eauto using invA_reach, invS_reach, invP_reach, invO1_reach, invO3_reach.
 Qed.
 
 (* monotone flags; the panic value is fixed by the CAS winner *)
@@ -536,11 +545,9 @@ Qed.
 Theorem wrote_fpanic : forall cf s, reachable cf s -> (wrote s = false -> fpanic s = None).
 Proof. intros cf s R. apply (invP_reach cf s R). Qed.
 
-(* every thread blocked in `panicChan.channel <- p` carries the recorded panic value *)
+(* the one-slot buffer holds a value once the CAS was won; the caller re-raises that value *)
 Theorem psend_fpanic : forall cf s, reachable cf s ->
-  (forall p, g s = GPanicSend p -> fpanic s = Some (PUser p)) /\
-  (forall p, r s = RPSend p -> fpanic s = Some p) /\
-  (forall it p, In (it, WPSend p) (ws s) -> fpanic s = Some p) /\
+  (wrote s = true -> exists p, fpanic s = Some p) /\
   (forall p, c s = CDrainOut p -> fpanic s = Some p).
 Proof. intros cf s R. destruct (invP_reach cf s R) as (_ & H). exact H. Qed.
 
@@ -654,20 +661,17 @@ Proof.
   intros cf s l s' NP R C C' I H. unfold invR, clean in *.
   destruct (invS_reach cf s R) as (I1 & I2 & _).
   destruct (invA_reach cf s R) as (_ & _ & IA3 & _).
-  destruct (invP_reach cf s R) as (IP1 & IP2 & IP3 & IP4 & _).
+  destruct (invP_reach cf s R) as (IP1 & _).
   destruct I as (pre & Hr & Hc).
   destruct s; sproj. destruct C as (? & ? & ?). subst.
   assert (reterr = None) by (apply IA3; reflexivity).
   assert (fpanic = None) by (apply IP1; reflexivity). subst. clear IA3 IP1.
   open_step' l H.
-  all: try (apply find_psend_nth0 in E; apply nth_error_In in E).
   all: try solve [destruct C' as (? & ? & ?); discriminate].
   all: clear C'.
   all: cbn [remaining] in *; rewrite ?remaining_next.
   all: try contradiction.
   all: try solve [exists pre; split; assumption].
-  all: try solve [exfalso; first [ specialize (IP2 _ eq_refl) | specialize (IP3 _ eq_refl)
-                                 | specialize (IP4 _ _ E) ]; discriminate].
   all: try solve [exfalso; match goal with E : _ = true |- _ =>
                     simpl in E; destruct (I1 E); discriminate end].
   all: try solve [exfalso; destruct (I1 eq_refl); discriminate].
